@@ -28,8 +28,8 @@ CHECKS = {
  "C12": dict(text="Seeded search (degenerate use of the simulator: one core, no interleaving): functions with arguments, allocs and kernels in loops are compiled with set-memory-space,realize-memref-casts and executed on symbolic buffer contents next to the uncompiled reference (kernels operate on the arguments directly): every kernel must read the provenance the reference read, the arguments must end equal, every kernel operand must be in L1, argument types keep L3, and the output must respect SSA dominance. Constants and globals re-laid-out at compile time are decoded byte by byte with an independent layout oracle.",
               note="Data failures are judged only when every cast value is first read (or never read): programs that first write then read an argument through its cast are reported as OBSERVATION, because the statement words the copy-in as 'before its first reader'. alloc-to-global is not exercised; RemoveTransposeConstants is applied as a rewrite pattern (its pass shells out to mlir-opt). Buffers of 4 elements, <= 12 kernels, loop nesting <= 2, trips 0..2.",
               tech="deterministic simulation of reference vs compiled program on symbolic buffer contents; provenance refinement + static dominance/memory-space oracles (no schedule/fault dimension)", ref="5 C12"),
- "C13": dict(text="Seeded search over schedules: the function produced by insert-sync-barrier (optionally followed by dispatch-regions) is executed by 2-4 simulated cores on shared symbolic memory; a seeded scheduler decides every interleaving, stall and DMA/kernel burst split. A barrier-epoch race monitor checks every memory cell online, the barrier model detects deadlock, and final buffer contents plus everything each copy/kernel read are compared with the sequential single-core reference.",
-              note="Trusts the cluster model in /verif (A4-A6: non-atomic multi-burst copies/kernels, all-core barrier, collective allocs), whole buffers and (30% of cases) subviews of one allocation, streaming regions, multi-block functions; buffers of 4 elements, <=16 statements, nesting<=3, trip counts 0..3.",
+ "C13": dict(text="Seeded search over schedules: the function produced by insert-sync-barrier (optionally followed by dispatch-regions) is executed by 2-4 simulated cores on shared symbolic memory; a seeded scheduler decides every interleaving, stall and DMA/kernel burst split. A barrier-epoch race monitor checks every memory cell online, the barrier model detects deadlock, and final buffer contents plus everything each copy/kernel read are compared with the sequential single-core reference. A quarter of the cases runs the static-allocation slice of the snaxc pipeline (insert-sync-barrier, memref-to-snax, canonicalize, snax-allocate{minimalloc}, insert-sync-barrier) on address-indexed memory, so that a buffer whose address is handed out again is protected only by the barrier in front of its dealloc.",
+              note="Trusts the cluster model in /verif (A4-A6: non-atomic multi-burst copies/kernels, all-core barrier, collective allocs), whole buffers and (30% of cases) subviews of one allocation, streaming regions, multi-block functions, late allocations / explicit deallocs with address reuse (minimalloc replaced by a first-fit packer); buffers of 4 elements, <=16 statements, nesting<=3, trip counts 0..3.",
               tech="deterministic multi-core simulation with seeded scheduler (interleavings, stalls, burst sizes); race monitor + deadlock invariant + refinement against sequential reference", ref="5 C13"),
  "C14": dict(text="Seeded search: the function produced by dispatch-regions{nb_cores=N} (N=2..5; thorough also function-constant-pinning) is executed by all N simulated cores; each core's history of executed tagged operations with evaluated operands must equal the original sequential history filtered by the dispatch rule (restated independently in /verif), and no schedule may deadlock at a barrier.",
               note="Trusts the interpreter and cluster model; functions with scf control flow and (20% of cases) several blocks linked by cf.br / cf.cond_br; copies, linalg.generic and dart streaming regions (XDMA extension kernels = data mover, snax_alu = compute) as dispatchable ops; interleavings are randomised only because the deadlock invariant depends on them (the history oracle does not).",
